@@ -5,6 +5,7 @@ package main
 import (
 	"fmt"
 	"math/big"
+	"os"
 	"sort"
 	"strings"
 
@@ -359,6 +360,56 @@ func checkC11(r *Result) {
 				}
 			}
 			r.check(okShape, "LIN-SLASH", "(x/reporter/keeper.Keeper).EscrowReporterStake # per-backer request = origin.Amount x amt / (power x PR)", P.Pos(undelegates[0].Pos()), "normal form of the proportional edge: "+desc)
+		}
+		// every origin of the snapshot is processed: each iteration decides the "last origin takes the rounding
+		// leftover" test, and skips the withdrawal only when the origin's final share is zero
+		if len(undelegates) >= 1 {
+			if h := innermostLoopHeader(er, undelegates[0].Block()); h == nil {
+				r.broken("EscrowReporterStake: the per-origin withdrawal is not in a loop")
+			} else {
+				isLast := func(in ssa.Instruction) bool {
+					iff, ok := in.(*ssa.If)
+					if !ok {
+						return false
+					}
+					rel, _ := Cond(tm.Of(iff.Cond))
+					return rel != nil && rel.Op == "==" && rel.Contains("builtin:len") && rel.Contains("TokenOrigins")
+				}
+				okA, whyA := iterationPasses(er, h, isLast)
+				r.check(okA, "ESCROW-RECORD", "(x/reporter/keeper.Keeper).EscrowReporterStake # every origin passes the last-origin test that adds the rounding leftover", P.Pos(undelegates[0].Pos()), whyA)
+				first := h.Instrs[0]
+				ps := AnalyzePaths(er, []Atom{
+					{Name: "taken", Event: func(in ssa.Instruction) (bool, int8) {
+						if in == first {
+							return true, F
+						}
+						if in == ssa.Instruction(undelegates[0]) {
+							return true, T
+						}
+						return false, U
+					}},
+					{Name: "zeroShare", Cond: func(rel *Term) (bool, bool) {
+						if os.Getenv("VERIF_DEBUG") != "" {
+							fmt.Fprintln(os.Stderr, "C11 cond:", clip(rel.String(), 300))
+						}
+						if rel.Op == "==" && len(rel.Args) == 2 && rel.Args[1].Op == "const:0" && rel.Args[0].Op == "phi" && rel.Args[0].Contains("RoundInt") {
+							return true, true
+						}
+						return false, false
+					}},
+				})
+				okB, nBack := true, 0
+				for _, p := range h.Preds {
+					if !h.Dominates(p) {
+						continue
+					}
+					nBack++
+					if bad := ps.RequireOnEdge(p, h, func(v map[string]bool) bool { return v["taken"] || v["zeroShare"] }); len(bad) > 0 {
+						okB = false
+					}
+				}
+				r.check(okB && nBack > 0, "ESCROW-RECORD", "(x/reporter/keeper.Keeper).EscrowReporterStake # an origin is skipped only when its final share (leftover included) is zero", P.Pos(undelegates[0].Pos()), fmt.Sprintf("%d back edges", nBack))
+			}
 		}
 		// recorded amounts per origin add up to the share
 		sum := newPoly()
